@@ -176,13 +176,16 @@ pub fn session(id: &str, lines: &[String], emit: &mut dyn FnMut(String)) {
                     let mut want: BTreeSet<u64> = bset.clone();
                     want.insert(p.entry);
                     let got: BTreeSet<u64> = d.keys().copied().collect();
-                    if got != want {
-                        let extra: Vec<u64> = got.difference(&want).copied().collect();
-                        let missing: Vec<u64> = want.difference(&got).copied().collect();
+                    // C02 bounds the differences from above ("the only bytes that differ are the user's breakpoints + the documented
+                    // internal ones"): a patch that is MISSING after a refused request (a breakpoint that could not be re-armed) is not a
+                    // left-over byte; it is counted (`fault.breakpoint-not-rearmed`) but it is not a verdict of this property.
+                    let extra: Vec<u64> = got.difference(&want).copied().collect();
+                    let missing: Vec<u64> = want.difference(&got).copied().collect();
+                    if !missing.is_empty() { emit(format!("!count fault.breakpoint-not-rearmed")); }
+                    if !extra.is_empty() {
                         let cmd = t.get(1).copied().unwrap_or("?");
-                        let key = if !extra.is_empty() { format!("temporaries-left-behind-when-{cmd}-fails-midway") } else { format!("breakpoint-lost-when-{cmd}-fails-midway") };
-                        let key = key.as_str();
-                        oracle(emit, key, format!("`{line}` with an injected ptrace failure answered `{ans}`: left-over INT3 at {:x?}, breakpoints no longer patched {:x?}", extra, missing));
+                        let key = format!("temporaries-left-behind-when-{cmd}-fails-midway");
+                        oracle(emit, key.as_str(), format!("`{line}` with an injected ptrace failure answered `{ans}`: left-over INT3 at {:x?}, breakpoints no longer patched {:x?}", extra, missing));
                     }
                 }
             }
@@ -244,6 +247,7 @@ pub fn exec(id: &'static str, req: &[String], out: &mut Out, tmpdir: &std::path:
     for (i, (s, (lines, how))) in sessions.iter().zip(results).enumerate() {
         let mut pairs: Vec<(String, String)> = vec![];
         for l in lines {
+            if let Some(c) = l.strip_prefix("!count ") { out.count(c, 1); continue; }
             if let Some(j) = l.strip_prefix("!oracle ") {
                 let v: serde_json::Value = serde_json::from_str(j).unwrap();
                 out.oracle_fail(v["key"].as_str().unwrap(), v["what"].as_str().unwrap(), json!({"session": s.iter().map(|l| short(l)).collect::<Vec<_>>(), "detail": v["replay"]}));
